@@ -20,7 +20,9 @@
               msg:<roundtrip>  any other server: the result of the discovery round trip
     answer    ok M.m req=M.m clone=M.m disc=<d>  |  err disc=<d>  |  err item … disc=<d>  |  panic
               req / clone: header version of a request sent afterwards by the client / by its clone;
-              d = - (no discovery exchange) or  <header version>/<versions listed in the request>
+              d = - (no discovery exchange) or  <header version>/<versions listed in the request> ans=<a>
+              a = the version list of the DiscoverVersions response payload of the first item of the
+                  answer as the client received it (none: no such payload)
 
   resp.interpret <api> <arg> <roundtrip>
     api = request | exec      arg = requested operation         answer  ok <payload> | err | err item … | panic
@@ -163,7 +165,10 @@ def negoAdopt (enf calls srv : String) : String :=
     let cfg : ClientCfg := { calls, enforce }
     let disc := match enforce with
       | some _ => "-"
-      | none => renderVer discoverHeader ++ "/" ++ renderVers (clientList cfg)
+      | none => renderVer discoverHeader ++ "/" ++ renderVers (clientList cfg) ++ " ans=" ++
+          (match respond sb discoverHeader (clientList cfg) with
+           | .msg _ (bi :: _) => if bi.payload = some (.resp opDiscover) then renderVers bi.vers else "none"
+           | _ => "none")
     match dial stdTables cfg sb with
     | .ok c =>
       let hs := run c [.batch 1 [], .clone, .batch 1 []]
